@@ -37,7 +37,8 @@ CLAIMED = {
              "domain type), for all domains, data, admin lists and sources. Tied to /repo by domain-focused histories through the "
              "real signer; every released signature is judged by the Lean predicate, BLS-verified over the model's signing root for its own "
              "domain and required not to verify under attester/proposer-typed domains. C05_kernel_is_source: onSign equals the function "
-             "translated on every run from the Go source of OnSign.",
+             "translated on every run from the Go source of OnSign."
+             " gRPC-routed requests come from several loopback source addresses (client socket bound to 127.0.0.2/.3) against admin lists over them: the source is the REMOTE end of the connection.",
         note="Trusted: Lean kernel + 3 standard axioms; correspondence check; domain-type constants come from go-eth2-types and are validated by the engine, not regenerated.",
         ref="DESIGN.md §6 C05"),
     "C06": dict(
@@ -46,7 +47,8 @@ CLAIMED = {
              "signature iff its state is SUCCEEDED; C06_*_fault: a failing read/write (landed or not)/signing call leaves no "
              "signature; C06_batch_*: a failing read or write anywhere fails the whole batch; C06_shape_*: one position per request. "
              "Tied to /repo by enumerating every single fault at every hook site for every request kind and batch position, "
-             "undecodable records on disk, and seeded multi-fault histories; positions judged by the Lean biconditional.",
+             "undecodable records on disk, and seeded multi-fault histories; positions judged by the Lean biconditional."
+             " Also faults raised by badger itself: its write-refusal state (ErrBlockedWrites, reads still served) for the duration of a request, and a real shutdown beginning while a request stands at its write. Fact obligations facts_rules_results / facts_result_switches_total on the regenerated enumerators and switches.",
         note="Trusted: Lean kernel + 3 axioms; fault injection points are the verif hooks (Store.Fetch/Store/BatchStore entry, after-store, signRoot); handler-level mapping is covered by C20's wire engine.",
         ref="DESIGN.md §6 C06"),
     "C07": dict(
@@ -69,7 +71,8 @@ CLAIMED = {
              "submitted data under the resolved account's key), C08_leaves_injective / C08_header_leaves_injective (SSZ chunks "
              "determine well-formed data). Tie: every signature the implementation returns (batches of 1..65, thorough 300, "
              "GOMAXPROCS 1,2,3,16) is verified by the real BLS library under the addressed account's key over the root computed "
-             "by the Lean model's own SHA-256/merkleisation; neighbouring positions' roots must be rejected.",
+             "by the Lean model's own SHA-256/merkleisation; neighbouring positions' roots must be rejected."
+             " Every released signature is judged against the signing root of ITS OWN entry's data (Lean aroot/proot/sroot) even where the model signs nothing; batches with an entry failing before the rules at front/middle/end.",
         note="Assumed: SHA-256 collision resistance, herumi BLS. The model's SHA-256/SSZ are re-implementations tied by the verification itself.",
         ref="DESIGN.md §6 C08"),
     "C09": dict(
@@ -108,7 +111,8 @@ CLAIMED = {
              "C03_released_never_slashable. Tie: a child process is SIGKILLed at every hook point of seeded histories; the restarted "
              "instance's export must cover everything returned before the kill (Lean judge), equal the model's store before or after "
              "the interrupted request, and refuse conflicting probes; call-order traces (store exit before sign) are diffed with the "
-             "model; SyncWrites is read back from the open store and the value log's O_DSYNC/fsync is checked under strace.",
+             "model; SyncWrites is read back from the open store and the value log's O_DSYNC/fsync is checked under strace."
+             " Replies given before each kill are compared with the model (a request whose state write failed must carry no signature); fact obligation facts_result_switches_total (every switch over rules.Result names all enumerators or has a default).",
         note="Assumed: fsynced badger data survives power loss and badger's recovery replays it; SIGKILL cannot lose page-cache data so durability itself is probed only by option read-back and syscall trace. A crash leaving a strict subset of a batch written is not modelled (badger WriteBatch atomicity assumed).",
         ref="DESIGN.md §6 C03"),
     "C04": dict(
@@ -117,7 +121,8 @@ CLAIMED = {
              "applied atomically), C04_linearizable (final store = sequential object on the requests in commit order, any number of "
              "threads, any interleaving), C04_real_time_order, C04_footprint_attest, C04_trace_is_protocol. Tie: recorded locker/store "
              "call sequences of every request equal the model's; steered concurrent schedules (a request parked between read and write) "
-             "are judged by a Wing-Gong search in the Lean driver against the sequential model, plus slashability of everything released; soak runs.",
+             "are judged by a Wing-Gong search in the Lean driver against the sequential model, plus slashability of everything released; soak runs."
+             " Start-up histories: stores pre-filled with old-format / current / no records, the first state write after the service starts stalled, a request conflicting with one answered earlier must be refused.",
         note="Assumed: Go's sync.Mutex semantics and memory model, badger atomic writes. Real interleavings are sampled and steered, only the model's are covered universally.",
         ref="DESIGN.md §6 C04"),
     "C15": dict(
@@ -138,7 +143,8 @@ CLAIMED = {
              "all (n,t) incl. every t outside the range, id sets small/sparse/near 2^64, different initiators, delayed and tampered "
              "commit replies; on success the relation vector the theorems name is checked with the BLS library (same composite "
              "key/vector/threshold/participants, share vs vector, every t-subset recovers, no (t-1)-subset does, immediate sign+list) "
-             "and the secret recovered by the Lean driver's own Lagrange interpolation over Z_r maps to the composite key.",
+             "and the secret recovered by the Lean driver's own Lagrange interpolation over Z_r maps to the composite key."
+             " After each further generation into the same wallet every earlier account is re-examined (held, consistent, usable).",
         note="Assumed: herumi BLS (field/group laws, hash-to-curve, Recover), CSPRNG. Real gRPC between daemons is unavailable in the sandbox (peer names do not resolve); messages pass the real receiver handlers after a protobuf round trip.",
         ref="DESIGN.md §6 C12", engine="lean+dkg"),
     "C13": dict(
@@ -156,7 +162,8 @@ CLAIMED = {
              "C14_threshold_from_generation links 2t>n to the generation bounds. Tie: a really generated distributed account on n real "
              "instances with separate rules stores; conflicting duty pairs routed to random subsets/interleavings with repeats; "
              "per-instance verdicts diffed with the model; the Lean judge counts partial signatures per duty; partial signatures of a "
-             "duty that reached t are combined by the BLS library and verified under the composite key over the model's signing root.",
+             "duty that reached t are combined by the BLS library and verified under the composite key over the model's signing root."
+             " Partial signatures are also counted by what they VERIFY over: every signature released in a pair's window is checked under the instance's share key against both duties' roots; duties also arrive as the first entry of a batch addressed to an unknown account.",
         note="Concurrency inside one instance is reduced to a serial order by C04. Assumed: BLS library.",
         ref="DESIGN.md §6 C14", engine="lean+dkg"),
     "C16": dict(
@@ -165,7 +172,8 @@ CLAIMED = {
              "authenticated name is not a configured peer), senderId_ne_zero_iff, C16_share_owner. Tie: real receiver.Handler with "
              "context-injected names (clients with full permissions, empty, unknown, case-changed, near-miss, unconfigured signer) x "
              "5 messages x instances x states none/prepared/executed/committed, generation then completed by a peer; share ownership for "
-             "all ordered participant pairs checked with the BLS library (the reply's share verifies at the caller's id only).",
+             "all ordered participant pairs checked with the BLS library (the reply's share verifies at the caller's id only)."
+             " Projection judge: the same scenario without the messages refused as 'unknown sender' must answer every other message identically (refused AND changes nothing, decided on the implementation alone).",
         note="TLS authentication itself is C19; here the authenticated name is injected into the context the way the interceptor does.",
         ref="DESIGN.md §6 C16", engine="lean+dkg"),
     "C17": dict(
@@ -175,7 +183,8 @@ CLAIMED = {
              "C17_lifecycle_all_histories (for EVERY event sequence the reply-level lifecycle judge Spec.Life is silent on the model). Tie: "
              "hand-written and seeded event sequences over two account names on real instances with a 3 s generation timeout and real "
              "sleeps, staggered expiries and simultaneous prepares; reply classes and account presence diffed with the model; every successful commit "
-             "judged on the model state and every reply judged by Spec.Life on the implementation's output alone.",
+             "judged on the model state and every reply judged by Spec.Life on the implementation's output alone."
+             " Variants in which the callers' request contexts carry deadlines far beyond / well inside the generation timeout.",
         note="Event sequences are restricted to those whose outcome does not depend on Go's map iteration order. The model clock advances only by explicit sleeps (chosen far from the timeout).",
         ref="DESIGN.md §6 C17", engine="lean+dkg"),
     "C18": dict(
@@ -185,7 +194,8 @@ CLAIMED = {
              "permission configurations, clients and path lists. Tie: generated wallet/account populations, per-account permission "
              "tables, path lists (wallet only, regex, trailing slash, unknown, case variants, malformed, duplicates), listings before "
              "and after accounts created through dirk; result multisets diffed with the model and judged sound/complete by the Lean "
-             "specification (firstBearing + whole-name match); each entry's key cross-checked with the fetcher.",
+             "specification (firstBearing + whole-name match); each entry's key cross-checked with the fetcher."
+             " Populations include DISTRIBUTED wallets with imported accounts (participant endpoints of every spelling) and 40% of the scenarios are listed through the real gRPC ListAccounts handler; earlier listings are repeated after creations.",
         note="Over-listing inside accessible accounts of a requested wallet (the lister's un-grouped anchoring) is not flagged: C18 as stated allows it.",
         ref="DESIGN.md §6 C18"),
     "C19": dict(
@@ -196,7 +206,8 @@ CLAIMED = {
              "on every run. Tie: testing/daemon.New on 127.0.0.1; 11 credential kinds minted at run time (plaintext, no certificate, "
              "self-signed, other authority, expired, not yet valid, valid permitted/unpermitted clients, a peer) x every method of every "
              "service in the pb descriptors x two wallets; refused-vs-served compared with the model; identity observed through "
-             "permission outcomes and the DKG unknown-sender reply.",
+             "permission outcomes and the DKG unknown-sender reply."
+             " Since round 5: 26 credential kinds incl. TLS 1.3 resumption tickets forged under six keys computable from public data; fact obligation facts_tls_fields (only reviewed tls.Config fields, no method called on the config).",
         note="Assumed: crypto/tls and x509 implement the documented ClientAuthType semantics; gRPC dispatches only on an established connection. factx is a syntactic extractor (go/ast).",
         ref="DESIGN.md §6 C19", engine="lean+factx+dh"),
     "C20": dict(
@@ -206,7 +217,8 @@ CLAIMED = {
              "API (TLS, interceptors, handlers) diffed position by position with the Lean handler model; raw protobuf bytes (absent / "
              "empty / duplicated fields, odd byte lengths, extreme integers, batches, unknown fields, wrong wire types, truncation, "
              "garbage, DKG messages from non-peers) sent over gRPC to a daemon in a child process under ulimit -v 16 GiB, a second "
-             "client probing liveness after every message.",
+             "client probing liveness after every message."
+             " Fixed corpus enumerates participant/threshold corner pairs of Generate on the distributed wallet.",
         note="Assumed: allocator size classes (short byte fields get capacity >= 8), C-library robustness. The inventory is syntactic (panic, unchecked assertion, constant-bound slice, non-constant make); plain indexing is covered by the shape theorems.",
         ref="DESIGN.md §6 C20", engine="lean+factx+dh"),
 }
